@@ -3,7 +3,9 @@ bucket arms, neutral defaults, disabled-metrics path.  Numeric consistency of th
 
 from .common import *
 from ..pm import pmatch, pat, has
-from ..pyfacts import Fn, py_guard
+from ..pyfacts import Fn, loops, py_guard
+from ..stage import Store
+from ..term import mk_op, subterms
 
 REL = "transactron/lib/metrics.py"
 ENABLED = "self.metrics_enabled()"
@@ -245,8 +247,82 @@ def py_guard_of(s):
     return py_guard(s)
 
 
+def one_hot_classification(ctx):
+    """TaggedCounter selects the one-hot decoding exactly when every tag value is a power of two (1, 2, 4, ...): the one-hot
+    decoder has a case for bit i = tag 1 << i only, so a tag of 0 (or any other value) classified as one-hot is never counted.
+    The classification is evaluated element by element for -4 .. 40."""
+    from ..logic import NotEvaluable, evalt
+
+    fn = Fn(ctx.repo, REL, "TaggedCounter.__init__", "C31")
+    got = {}
+    form = None
+    for ex in fn.exs:
+        for s in ex.of(Store):
+            if s.target != ("a", ("self",), "one_hot"):
+                continue
+            m = pmatch("all(Q_g)", s.value)
+            if m is not None and m["g"][0] == "lc" and len(m["g"][3]) == 1 and not loops(s):
+                b = m["g"][3][0][0]
+                b = b[0] if isinstance(b, tuple) and b and isinstance(b[0], tuple) else b
+                form = "all"
+                for v in range(-4, 41):
+                    try:
+                        got[v] = bool(evalt(m["g"][2], {b: v})) and all(bool(evalt(c, {b: v})) for c in m["g"][3][0][2])
+                    except NotEvaluable:
+                        got[v] = None
+            elif s.value == ("c", False) and len(loops(s)) == 1:
+                b = loops(s)[0][0][0]
+                form = form or "loop"
+                # this configuration's decisions on the element select the values it speaks about
+                for v in range(-4, 41):
+                    try:
+                        here = all(bool(evalt(t, {b: v})) == d for t, d in ex.config if any(x == b for x in subterms(t)))
+                    except NotEvaluable:
+                        continue
+                    if here:
+                        got[v] = False
+    if form == "loop":
+        for v in range(-4, 41):
+            got.setdefault(v, True)
+    want = {v: (v >= 1 and v & (v - 1) == 0) for v in range(-4, 41)}
+    bad = [v for v in want if got.get(v) is not want[v]]
+    ctx.check(form is not None and not bad, "C31.one-hot-classification", fn.site, "TaggedCounter.one_hot", found=(f"classified differently: {bad[:8]}" if bad else f"form {form}: agrees on -4..40") if form else "no classification found",
+              required="one_hot iff every tag value is a power of two >= 1 (0 and negative values are not)")
+
+
+def histogram_register_widths(ctx):
+    """min and max hold samples: they are as wide as a sample (a narrower max truncates the maximum it stores and then compares
+    new samples with the truncated value); min starts at the largest sample value."""
+    fn = Fn(ctx.repo, REL, "HwExpHistogram.__init__", "C31")
+    sw = ("a", ("self",), "sample_width")
+    seen = {}
+    for ex in fn.exs:
+        for s in ex.of(Store):
+            if s.target in (("a", ("self",), "min"), ("a", ("self",), "max")):
+                class _O:
+                    ctor = s.value
+
+                o = ex.obj(s.value) if s.value[0] == "obj" else _O
+                if o is not None and o.ctor[0] == "call" and o.ctor[1] == ("n", "HwMetricRegister") and len(o.ctor[2]) >= 2:
+                    w = o.ctor[2][1]
+                    w = ex.vardef(w) or w
+                    src = [sx.value for sx in ex.of(Store) if sx.target == sw]
+                    ok = w == sw or (src and w == src[-1])
+                    kw = dict(o.ctor[3])
+                    if s.target[2] == "min":
+                        ok = ok and kw.get("init") in (mk_op("-", mk_op("<<", ("c", 1), sw), ("c", 1)), mk_op("-", mk_op("**", ("c", 2), sw), ("c", 1)))
+                    seen[s.target[2]] = (ok, tstr(o.ctor)[:120], s.site)
+    for name in ("min", "max"):
+        ok, txt, site = seen.get(name, (False, "not found", fn.site))
+        ctx.check(bool(ok), "C31.histogram-register-widths", site, f"HwExpHistogram.{name}", found=txt,
+                  required="min / max are sample_width wide" + ("; min starts at (1 << sample_width) - 1" if name == "min" else ""))
+
+
 def check(ctx):
     from . import ohs
+
+    one_hot_classification(ctx)
+    histogram_register_widths(ctx)
 
     ohs.one_hot_switch_dynamic(ctx, "C31")
     ctx.use(REL)
